@@ -66,6 +66,14 @@
 
 #include <fix8/ff/platforms/platform.h>
 
+#ifdef FIX8_VERIF
+// verification hook: scheduling points between the atomic steps of the queue algorithms
+extern "C" void fix8_verif_point(int site, unsigned long val);
+#define FIX8_VERIF_POINT(s,v) fix8_verif_point((s),(unsigned long)(v))
+#else
+#define FIX8_VERIF_POINT(s,v)
+#endif
+
 namespace ff {
 
 // 64 bytes is the common size of a cache line
@@ -225,6 +233,7 @@ public:
             WMB();
             //std::atomic_thread_fence(std::memory_order_release);
             buf[pwrite] = data;
+            FIX8_VERIF_POINT(51, pwrite);
             pwrite += (pwrite+1 >=  size) ? (1-size): 1; // circular buffer
             return true;
         }
@@ -317,6 +326,7 @@ public:
     inline bool  pop(void ** data) {  /* modify only pread pointer */
         if (empty()) return false;
         *data = buf[pread];
+        FIX8_VERIF_POINT(52, pread);
         //std::atomic_thread_fence(std::memory_order_acquire);
         return inc();
     }
